@@ -410,7 +410,7 @@ async fn drain_background(cx: &mut Ctx) {
     for _ in 0..5000 {
         quiesce().await;
         let mut parked = cx.ctl.parked();
-        parked.sort_by_key(|p| p.0);
+        parked.sort_by(|a, b| (a.1, a.0).cmp(&(b.1, b.0)));
         match parked.first() {
             Some((t, _, _)) => {
                 cx.ctl.release(*t);
@@ -528,7 +528,7 @@ pub async fn run(cx: &mut Ctx) {
             break;
         }
         let mut parked = cx.ctl.parked();
-        parked.sort_by_key(|p| p.0);
+        parked.sort_by(|a, b| (a.1, a.0).cmp(&(b.1, b.0)));
         if cx.stats.decisions >= max_decisions {
             // budget exhausted: let everything run freely to the end
             cx.probe("decision-budget-exhausted");
@@ -562,9 +562,12 @@ pub async fn run(cx: &mut Ctx) {
         let nopt = parked.len() + usize::from(can_advance);
         let c = cx.decide(nopt);
         if c < parked.len() {
+            // Parked actors are ordered by (site, arrival): the choice then means the same
+            // actor even if two actors reached different gates in the other order.
             let (ticket, site, _) = &parked[c];
+            let nth = parked[..c].iter().filter(|p| p.1 == *site).count();
             sched_trace.push(format!("{site}"));
-            cx.log.push(format!("  sched: release #{ticket} at {site}"));
+            cx.log.push(format!("  sched: release {site}[{nth}]"));
             cx.ctl.release(*ticket);
         } else {
             advances += 1;
@@ -911,7 +914,7 @@ pub async fn run(cx: &mut Ctx) {
             }
             n += 1;
             let mut parked = cx.ctl.parked();
-            parked.sort_by_key(|p| p.0);
+            parked.sort_by(|a, b| (a.1, a.0).cmp(&(b.1, b.0)));
             match parked.first() {
                 Some((t, _, _)) => {
                     cx.ctl.release(*t);
